@@ -50,6 +50,10 @@ class ExcelCompiler:
 
     save_file_extensions = ('pkl', 'pickle', 'yml', 'yaml', 'json')
 
+    # once a value has been set, formula results stored in the workbook
+    # can no longer be trusted for cells which are yet to be built
+    _values_changed = False
+
     def __init__(self, filename=None, excel=None, plugins=None, cycles=None):
         """ Build a compiler instance to organize the formula for a workbook
 
@@ -455,6 +459,7 @@ class ExcelCompiler:
                 isinstance(old_value, bool) != isinstance(value, bool)):  # pragma: no branch
             # need to be able to 'set' an empty cell, set to not None
             cell_or_range.value = value
+            self._values_changed = True
 
             # reset the node + its dependencies
             if not self.cycles:
@@ -724,7 +729,10 @@ class ExcelCompiler:
             self.graph_todos.append(node)
 
         def build_cell(excel_cell):
-            a_cell = self.Cell(excel_cell.address, value=excel_cell.values,
+            value = excel_cell.values
+            if excel_cell.formula and self._values_changed:
+                value = None
+            a_cell = self.Cell(excel_cell.address, value=value,
                                formula=excel_cell.formula, excel=self.excel)
             self.cell_map[str(excel_cell.address)] = a_cell
             return [a_cell]
@@ -737,6 +745,8 @@ class ExcelCompiler:
             if isinstance(excel_range.formula, tuple):
                 for addr, value, formula in a_range.cells_to_build(excel_range):
                     if addr.address not in self.cell_map:
+                        if formula and self._values_changed:
+                            value = None
                         a_cell = self.Cell(addr, value, formula, self.excel)
                         self.cell_map[addr.address] = a_cell
                         added.append(a_cell)
